@@ -873,4 +873,23 @@ SEEDS = [
             }
         }
 """, note='early-out "probe above the last key" also taken when equal'),
+
+    # --- DEFICIT: the climb of the removal repair (round 6/7) ---------------------------------------------------
+    dict(id='DF1-set-case4-no-handover', props=['C02', 'C10'], file='src/set/tree.rs',
+         old="""                // Case 4: Black sibling with two black children + black parent
+                self.fix_red_black_properties_after_delete(p_index);""",
+         new="""                // Case 4: Black sibling with two black children + black parent""", note='the deficit is not handed to a black parent'),
+    dict(id='DF2-key-case4-wrong-node', props=['C02', 'C10'], file='src/key/tree.rs',
+         old="""                // Case 4: Black sibling with two black children + black parent
+                self.fix_red_black_properties_after_delete(p_index);""",
+         new="""                // Case 4: Black sibling with two black children + black parent
+                self.fix_red_black_properties_after_delete(s_index);""", note='the repair continues with the sibling instead of the parent'),
+    dict(id='DF3-map-case3-unconditional-black', props=['C02', 'C10'], file='src/map/tree.rs',
+         old="""            if parent.color == Color::Red {
+                parent.color = Color::Black;
+            } else {
+                // Case 4: Black sibling with two black children + black parent
+                self.fix_red_black_properties_after_delete(p_index);
+            }""",
+         new="""            parent.color = Color::Black;""", note='parent painted black unconditionally, no climb'),
 ]
